@@ -32,7 +32,7 @@ def main():
                      "kind_free_text": "contract-based deductive verifier: symbolic execution of the real function bodies over a numpy facade, sidecar contracts, z3 discharge; bounded stand-ins labelled B / E"}],
         "checks": checks,
         "not_applicable": na,
-        "notes": "Genuine defects repaired by fix: commits in /repo are recorded in known_findings.json. Seeded breaking changes used to test the checks are under seeded/.",
+        "notes": "Genuine defects found by the checks are recorded in known_findings.json: status fixed = repaired by a fix: commit in /repo (suppresses nothing); status open = recorded, not repaired (DESIGN.md 6.1): the check prints KNOWN-FINDING for the named contract / configuration / obligation and still reports every other violation. Seeded breaking changes used to test the checks are under seeded/ (never committed to /repo). lemmas/SigmaRules.lean holds the Lean proofs of the finite-sum rules (re-checked in the thorough tier).",
     }
     json.dump(m, open(os.path.join(ROOT, "MANIFEST.json"), "w"), indent=1)
     print("MANIFEST: %d checks, %d not_applicable" % (len(checks), len(na)))
